@@ -3,9 +3,10 @@ import Mathlib.Logic.Function.Iterate
 import Mathlib.Tactic.Linarith
 /-!
 Rounding-abstract reading of the float-stepping loops of `CuboidCells.__init__`:
-for ANY scalar type and ANY stepping functions that are mutually inverse and along which the digit
-`int(x / side)` is monotone and never jumps by more than one, the loops (if they terminate) return the
-two ends of the maximal run of consecutive scalars whose digit is the cell's identifier.
+for ANY scalar type and ANY stepping functions that are mutually inverse and along which the cell digit
+`_cell_identifier(x) = min(int(x / side), n - 1)` is monotone and never jumps by more than one, the loops (if they
+terminate) return the two ends of the maximal run of consecutive scalars BELOW THE SYSTEM LENGTH whose digit is the
+cell's identifier; in particular the last cell ends at the largest scalar below the system length.
 -/
 namespace JF.Cells
 
@@ -33,72 +34,162 @@ theorem whileStep_spec {α : Type} (cond : α → Bool) (step : α → α) :
 section
 variable {α : Type} [Add α] [Sub α] [Mul α] [Div α] [Neg α] [LT α] [DecidableLT α] [LE α] [DecidableLE α] [BEq α]
 
-/-- the assumptions on the stepper, relative to one direction's `side` -/
-structure StepLaws (o : Ops α) (st : Stepper α) (side : α) : Prop where
+/-- the assumptions on the stepper, relative to one direction (`side`, `n` cells, system length `len`) -/
+structure StepLaws (o : Ops α) (st : Stepper α) (side : α) (n : Int) (len : α) : Prop where
   up_down : ∀ x, st.up (st.down x) = x
   down_up : ∀ x, st.down (st.up x) = x
-  /-- the digit is monotone along the steps … -/
-  mono : ∀ x, digit o side (st.down x) ≤ digit o side x
+  /-- the cell digit is monotone along the steps … -/
+  mono : ∀ x, cellDigit o side n (st.down x) ≤ cellDigit o side n x
   /-- … and one step changes it by at most one -/
-  slow : ∀ x, digit o side x ≤ digit o side (st.down x) + 1
+  slow : ∀ x, cellDigit o side n x ≤ cellDigit o side n (st.down x) + 1
+  /-- `x < len` and `x >= len` are complementary (no NaN) -/
+  lt_len : ∀ x, x < len ↔ ¬ len ≤ x
+  /-- stepping down from below the system length stays below it -/
+  down_len : ∀ x, ¬ len ≤ x → ¬ len ≤ st.down x
+  /-- the largest scalar below the system length has quotient at least `n - 1` (it belongs to the last cell) -/
+  top : ∀ x, len ≤ x → ¬ len ≤ st.down x → cellDigit o side n (st.down x) = n - 1
 
-omit [Add α] [Sub α] [Neg α] [LE α] [DecidableLE α] [LT α] [DecidableLT α] in
-/-- **extent_sound (upper end)**: if the start `(i+1)·side` is not below cell `i`, the returned `cell_max` has
-digit `i` and the next scalar above it has digit `i + 1`. -/
-theorem upperPos_sound (o : Ops α) (st : Stepper α) (fuel : Nat) (side : α) (i : Int) (laws : StepLaws o st side)
-    (start : i ≤ digit o side (o.ofInt (i + 1) * side)) (u : α)
-    (h : upperPos o st fuel side i = .ok u) :
-    digit o side u = i ∧ digit o side (st.up u) = i + 1 := by
-  unfold upperPos at h
-  simp only at h
-  split at h
-  · cases h
-  · split at h
-    · cases h
-    · rename_i u1 h1
-      split at h
+omit [Add α] [Sub α] [Mul α] [Neg α] [LT α] [DecidableLT α] [LE α] [DecidableLE α] [BEq α] in
+theorem cellDigit_le (o : Ops α) (side : α) (n : Int) (x : α) : cellDigit o side n x ≤ n - 1 := by
+  unfold cellDigit; omega
+
+/-- the digit the upper stepping loops really test: `n` from the system length on, the cell digit below it -/
+def effDigit (o : Ops α) (side : α) (n : Int) (len : α) (x : α) : Int :=
+  if len ≤ x then n else cellDigit o side n x
+
+omit [Add α] [Sub α] [Mul α] [Neg α] [LT α] [DecidableLT α] [BEq α] in
+theorem effDigit_mono {o : Ops α} {st : Stepper α} {side : α} {n : Int} {len : α} (laws : StepLaws o st side n len)
+    (x : α) : effDigit o side n len (st.down x) ≤ effDigit o side n len x := by
+  unfold effDigit
+  by_cases h : len ≤ x
+  · rw [if_pos h]
+    split
+    · omega
+    · have := cellDigit_le o side n (st.down x); omega
+  · rw [if_neg h, if_neg (laws.down_len x h)]
+    exact laws.mono x
+
+omit [Add α] [Sub α] [Mul α] [Neg α] [LT α] [DecidableLT α] [BEq α] in
+theorem effDigit_slow {o : Ops α} {st : Stepper α} {side : α} {n : Int} {len : α} (laws : StepLaws o st side n len)
+    (x : α) : effDigit o side n len x ≤ effDigit o side n len (st.down x) + 1 := by
+  unfold effDigit
+  by_cases h : len ≤ x
+  · rw [if_pos h]
+    by_cases h' : len ≤ st.down x
+    · rw [if_pos h']; omega
+    · rw [if_neg h', laws.top x h h']; omega
+  · rw [if_neg h, if_neg (laws.down_len x h)]
+    exact laws.slow x
+
+omit [Add α] [Sub α] [Mul α] [Neg α] in
+/-- for a cell of the grid (`i < n`) the two loop conditions of the upper block are tests of `effDigit` -/
+theorem upper_conds {o : Ops α} {st : Stepper α} {side : α} {n : Int} {len : α} (laws : StepLaws o st side n len)
+    {i : Int} (hi : i < n) (x : α) :
+    (decide (x < len) && (cellDigit o side n x == i)) = (effDigit o side n len x == i) ∧
+    (decide (len ≤ x) || decide (cellDigit o side n x > i)) = decide (effDigit o side n len x > i) := by
+  unfold effDigit
+  by_cases h : len ≤ x
+  · have h' : ¬ x < len := fun c => (laws.lt_len x).mp c h
+    have hne : ¬ n = i := by omega
+    simp [h, h', hi, hne]
+  · have h' : x < len := (laws.lt_len x).mpr h
+    simp [h, h']
+
+omit [Add α] [Sub α] [Neg α] in
+/-- **extent_sound (upper end)**: for a cell of the grid (`i < n`), if the start `(i+1)·side` is not below cell `i`,
+the returned `cell_max` lies below the system length and has digit `i`; for an inner cell the next scalar above it lies
+below the system length too and has digit `i + 1`; for the last cell the next scalar above it is not below the system
+length, i.e. `cell_max` is the largest scalar below the system length. -/
+theorem upperPos_sound (o : Ops α) (st : Stepper α) (fuel : Nat) (side : α) (n : Int) (len : α) (i : Int)
+    (laws : StepLaws o st side n len) (hi : i < n)
+    (start : len ≤ o.ofInt (i + 1) * side ∨ i ≤ cellDigit o side n (o.ofInt (i + 1) * side)) (u : α)
+    (h : upperPos o st fuel side n len i = .ok u) :
+    u < len ∧ cellDigit o side n u = i ∧
+      (i + 1 < n → st.up u < len ∧ cellDigit o side n (st.up u) = i + 1) ∧
+      (i + 1 = n → len ≤ st.up u) := by
+  -- the statement about `effDigit`, as for the loops without the bound
+  have key : effDigit o side n len u = i ∧ effDigit o side n len (st.up u) = i + 1 := by
+    have start' : i ≤ effDigit o side n len (o.ofInt (i + 1) * side) := by
+      unfold effDigit
+      rcases start with s | s
+      · rw [if_pos s]; omega
+      · split
+        · omega
+        · exact s
+    unfold upperPos at h
+    simp only at h
+    have c1' : (fun x => decide (x < len) && (cellDigit o side n x == i)) = fun x => effDigit o side n len x == i :=
+      funext fun x => (upper_conds laws hi x).1
+    have c2' : (fun x => decide (len ≤ x) || decide (cellDigit o side n x > i)) =
+        fun x => decide (effDigit o side n len x > i) := funext fun x => (upper_conds laws hi x).2
+    rw [c1', c2'] at h
+    split at h
+    · split at h
       · cases h
-      · rename_i u2 h2
-        cases h
-        obtain ⟨c1, j, e1, a1⟩ := whileStep_spec _ _ _ _ _ h1
-        obtain ⟨c2, j', e2, a2⟩ := whileStep_spec _ _ _ _ _ h2
-        simp only [beq_eq_false_iff_ne, ne_eq] at c1
-        simp only [decide_eq_false_iff_not, not_lt] at c2
-        -- after the first loop the digit is above i
-        have hge : i ≤ digit o side u1 := by
-          cases j with
-          | zero => rw [e1]; exact start
-          | succ j =>
-            have hp := a1 j (by omega)
-            simp only [beq_iff_eq] at hp
-            rw [e1, Function.iterate_succ_apply']
-            have := laws.mono (st.up (st.up^[j] (o.ofInt (i + 1) * side)))
-            rw [laws.down_up] at this
-            omega
-        have hgt : i < digit o side u1 := by omega
-        -- the second loop makes at least one step
-        cases j' with
-        | zero =>
-          rw [Function.iterate_zero, id] at e2
-          rw [e2] at c2; omega
-        | succ j' =>
-          have hp := a2 j' (by omega)
-          simp only [decide_eq_true_eq] at hp
-          have hu : st.up u = st.down^[j'] u1 := by
-            rw [e2, Function.iterate_succ_apply', laws.up_down]
-          have hs := laws.slow (st.down^[j'] u1)
-          rw [← Function.iterate_succ_apply' st.down j' u1, ← e2] at hs
-          rw [hu]
-          constructor <;> omega
+      · split at h <;> cases h
+    · split at h
+      · cases h
+      · rename_i u1 h1
+        split at h
+        · cases h
+        · rename_i u2 h2
+          cases h
+          obtain ⟨c1, j, e1, a1⟩ := whileStep_spec _ _ _ _ _ h1
+          obtain ⟨c2, j', e2, a2⟩ := whileStep_spec _ _ _ _ _ h2
+          simp only [beq_eq_false_iff_ne, ne_eq] at c1
+          simp only [decide_eq_false_iff_not, not_lt] at c2
+          -- after the first loop the digit is above i
+          have hge : i ≤ effDigit o side n len u1 := by
+            cases j with
+            | zero => rw [e1]; exact start'
+            | succ j =>
+              have hp := a1 j (by omega)
+              simp only [beq_iff_eq] at hp
+              rw [e1, Function.iterate_succ_apply']
+              have := effDigit_mono laws (st.up (st.up^[j] (o.ofInt (i + 1) * side)))
+              rw [laws.down_up] at this
+              omega
+          have hgt : i < effDigit o side n len u1 := by omega
+          -- the second loop makes at least one step
+          cases j' with
+          | zero =>
+            rw [Function.iterate_zero, id] at e2
+            rw [e2] at c2; omega
+          | succ j' =>
+            have hp := a2 j' (by omega)
+            simp only [decide_eq_true_eq] at hp
+            have hu : st.up u = st.down^[j'] u1 := by
+              rw [e2, Function.iterate_succ_apply', laws.up_down]
+            have hs := effDigit_slow laws (st.down^[j'] u1)
+            rw [← Function.iterate_succ_apply' st.down j' u1, ← e2] at hs
+            rw [hu]
+            constructor <;> omega
+  obtain ⟨k1, k2⟩ := key
+  unfold effDigit at k1 k2
+  have hu : ¬ len ≤ u := by
+    intro c; rw [if_pos c] at k1; omega
+  rw [if_neg hu] at k1
+  refine ⟨(laws.lt_len u).mpr hu, k1, ?_, ?_⟩
+  · intro hlt
+    have hu' : ¬ len ≤ st.up u := by
+      intro c; rw [if_pos c] at k2; omega
+    rw [if_neg hu'] at k2
+    exact ⟨(laws.lt_len _).mpr hu', k2⟩
+  · intro he
+    by_contra c
+    rw [if_neg c] at k2
+    have := cellDigit_le o side n (st.up u)
+    omega
 
 omit [Add α] [Sub α] [Neg α] [LE α] [DecidableLE α] [BEq α] in
 /-- **extent_sound (lower end)**: for a cell not at the origin (`0 < i·side`), if the start `i·side` is not
 above cell `i`, the returned `cell_min` has digit `i` and the next scalar below it has digit `i - 1`. -/
-theorem lowerPos_sound (o : Ops α) (st : Stepper α) (fuel : Nat) (side : α) (i : Int) (laws : StepLaws o st side)
+theorem lowerPos_sound [LE α] (o : Ops α) (st : Stepper α) (fuel : Nat) (side : α) (n : Int) (len : α) (i : Int)
+    (laws : StepLaws o st side n len)
     (hpos : o.ofInt 0 < o.ofInt i * side)
-    (start : digit o side (o.ofInt i * side) ≤ i) (l : α)
-    (h : lowerPos o st fuel side i = .ok l) :
-    digit o side l = i ∧ digit o side (st.down l) = i - 1 := by
+    (start : cellDigit o side n (o.ofInt i * side) ≤ i) (l : α)
+    (h : lowerPos o st fuel side n i = .ok l) :
+    cellDigit o side n l = i ∧ cellDigit o side n (st.down l) = i - 1 := by
   unfold lowerPos at h
   simp only [hpos, if_true] at h
   split at h
@@ -112,7 +203,7 @@ theorem lowerPos_sound (o : Ops α) (st : Stepper α) (fuel : Nat) (side : α) (
       obtain ⟨c2, j', e2, a2⟩ := whileStep_spec _ _ _ _ _ h2
       simp only [beq_eq_false_iff_ne, ne_eq] at c1
       simp only [decide_eq_false_iff_not, not_lt] at c2
-      have hle : digit o side l1 ≤ i := by
+      have hle : cellDigit o side n l1 ≤ i := by
         cases j with
         | zero => rw [e1]; exact start
         | succ j =>
@@ -121,7 +212,7 @@ theorem lowerPos_sound (o : Ops α) (st : Stepper α) (fuel : Nat) (side : α) (
           rw [e1, Function.iterate_succ_apply']
           have := laws.mono (st.down^[j] (o.ofInt i * side))
           omega
-      have hlt : digit o side l1 < i := by omega
+      have hlt : cellDigit o side n l1 < i := by omega
       cases j' with
       | zero =>
         rw [Function.iterate_zero, id] at e2
@@ -137,8 +228,8 @@ theorem lowerPos_sound (o : Ops α) (st : Stepper α) (fuel : Nat) (side : α) (
 
 omit [Add α] [Sub α] [Neg α] [LE α] [DecidableLE α] [BEq α] in
 /-- the first cell's `cell_min` is the literal product `0 · side` (no stepping) -/
-theorem lowerPos_origin (o : Ops α) (st : Stepper α) (fuel : Nat) (side : α) (i : Int)
-    (hpos : ¬ (o.ofInt 0 < o.ofInt i * side)) : lowerPos o st fuel side i = .ok (o.ofInt i * side) := by
+theorem lowerPos_origin (o : Ops α) (st : Stepper α) (fuel : Nat) (side : α) (n : Int) (i : Int)
+    (hpos : ¬ (o.ofInt 0 < o.ofInt i * side)) : lowerPos o st fuel side n i = .ok (o.ofInt i * side) := by
   unfold lowerPos
   simp only [hpos, if_false]
 
@@ -148,20 +239,21 @@ section
 variable {α : Type} [Div α] [LT α] [LE α]
 
 /-- order facts about the scalars and the stepper (true of the finite binary64 numbers with `nextafter`) -/
-structure OrderLaws (o : Ops α) (st : Stepper α) (side : α) : Prop where
+structure OrderLaws (o : Ops α) (st : Stepper α) (side : α) (n : Int) : Prop where
   total : ∀ x y : α, x ≤ y ∨ y < x
   antisymm : ∀ x y : α, x ≤ y → y ≤ x → x = y
   /-- nothing lies strictly between `x` and `up x` -/
   succ : ∀ x y : α, x < y → st.up x ≤ y
   up_down : ∀ x, st.up (st.down x) = x
-  /-- `int(x / side)` is monotone -/
-  mono : ∀ x y : α, x ≤ y → digit o side x ≤ digit o side y
+  /-- `min(int(x / side), n - 1)` is monotone -/
+  mono : ∀ x y : α, x ≤ y → cellDigit o side n x ≤ cellDigit o side n y
 
 /-- **cells abut**: the scalar following `cell_max` of cell `i` is `cell_min` of cell `i + 1`
 (`u`, `l` as characterised by `extent_sound`) -/
-theorem extents_abut (o : Ops α) (st : Stepper α) (side : α) (laws : OrderLaws o st side) (i : Int) (u l : α)
-    (hu : digit o side u = i) (hu' : digit o side (st.up u) = i + 1)
-    (hl : digit o side l = i + 1) (hl' : digit o side (st.down l) = i) :
+theorem extents_abut (o : Ops α) (st : Stepper α) (side : α) (n : Int) (laws : OrderLaws o st side n) (i : Int)
+    (u l : α)
+    (hu : cellDigit o side n u = i) (hu' : cellDigit o side n (st.up u) = i + 1)
+    (hl : cellDigit o side n l = i + 1) (hl' : cellDigit o side n (st.down l) = i) :
     st.up u = l := by
   have h1 : u < l := by
     rcases laws.total l u with h | h
@@ -174,5 +266,36 @@ theorem extents_abut (o : Ops α) (st : Stepper α) (side : α) (laws : OrderLaw
   have h3 := laws.succ _ _ h2
   rw [laws.up_down] at h3
   exact laws.antisymm _ _ (laws.succ _ _ h1) h3
+
+/-- two more facts of a linear order, needed to place a position inside its cell's extent -/
+structure LinearLaws (α : Type) [LT α] [LE α] : Prop where
+  trans : ∀ x y z : α, x ≤ y → y ≤ z → x ≤ z
+  not_le_of_lt : ∀ x y : α, x < y → ¬ y ≤ x
+
+/-- a position with cell digit `j` is not below the `cell_min` of cell `j` (`lo` as characterised by `extent_sound`) -/
+theorem cellMin_le_position (o : Ops α) (st : Stepper α) (side : α) (n : Int) (laws : OrderLaws o st side n)
+    (lin : LinearLaws α) (j : Int) (lo x : α) (hx : cellDigit o side n x = j)
+    (hlo : cellDigit o side n (st.down lo) = j - 1) : lo ≤ x := by
+  rcases laws.total lo x with h | h
+  · exact h
+  · exfalso
+    rcases laws.total x (st.down lo) with h' | h'
+    · have := laws.mono _ _ h'; omega
+    · have := laws.succ _ _ h'
+      rw [laws.up_down] at this
+      exact lin.not_le_of_lt _ _ h this
+
+/-- a position below the system length with cell digit `j` is not above the `cell_max` of cell `j`
+(`hi` as characterised by `extent_sound`; for the last cell this is the coverage of the top of the box) -/
+theorem position_le_cellMax (o : Ops α) (st : Stepper α) (side : α) (n : Int) (laws : OrderLaws o st side n)
+    (lin : LinearLaws α) (len : α) (j : Int) (hi x : α) (hx : cellDigit o side n x = j) (hxl : ¬ len ≤ x)
+    (h1 : j + 1 < n → cellDigit o side n (st.up hi) = j + 1) (h2 : ¬ j + 1 < n → len ≤ st.up hi) : x ≤ hi := by
+  rcases laws.total x hi with h | h
+  · exact h
+  · exfalso
+    have hs := laws.succ _ _ h
+    by_cases hj : j + 1 < n
+    · have := laws.mono _ _ hs; have := h1 hj; omega
+    · exact hxl (lin.trans _ _ _ (h2 hj) hs)
 end
 end JF.Cells
